@@ -19,7 +19,7 @@ func init() {
 		ID:          "C03",
 		Title:       "Unique and set indexes mirror entity state; uniqueness is enforced",
 		Technique:   "static analysis: must-pass ordering of the capture-old/persist/apply-new protocol, path rule 'the old index entry is removed on every changed path', no-removal-after-addition phase rule, duplicate-check dominance for unique puts, empty-key probe pairing, capture/remover pairing per constraint type",
-		LevelText:   "Structural necessary conditions, decided on every path: Update runs ProcessBeforeUpdate before and ProcessAfterUpdate after the persist, Create runs ProcessAfterUpdate after it, the delete path runs ProcessBeforeDelete and link cleanup before removing the entity; each index's apply step removes the captured old entry on every path where the value changed (no early exit around it), adds nothing before all removals are done, puts a unique value only on the not-present edge of a lookup of that value (else records the duplicate error), and prunes an emptied set-index key only right after probing it; every index-writing constraint captures its old state and has a remover on delete. The equality of index content and entity state after arbitrary histories needs execution and is not decided. Added later: the indexing context a store builds shares the operation's error holder (HOLDER); the pruning of an emptied set-index key is found by what it does (any package function that can reach DeleteBucket) and must be guarded by the emptiness probe at the call or inside. Added in rounds 8-9: the delete reaches every child store's constraints (ORCH); a missing path element yields nil, never the deepest existing ancestor (PATHNIL); AddConstraint appends what it is given on every path (CONSTRAINTREG); create-or-not is a constant of the entry point (CREATECTX). Added in round 11: index objects keep no state outside the transaction (TXSTATE); a failed index bucket is recorded or returned (INDEXBUCKETERR); the holder is consulted after the last index step in Create/Update/DeleteById (ERRREACH). Added in round 12: a walk over a set cursor is not ended by a nil element (SETWALK).",
+		LevelText:   "Structural necessary conditions, decided on every path: Update runs ProcessBeforeUpdate before and ProcessAfterUpdate after the persist, Create runs ProcessAfterUpdate after it, the delete path runs ProcessBeforeDelete and link cleanup before removing the entity; each index's apply step removes the captured old entry on every path where the value changed (no early exit around it), adds nothing before all removals are done, puts a unique value only on the not-present edge of a lookup of that value (else records the duplicate error), and prunes an emptied set-index key only right after probing it; every index-writing constraint captures its old state and has a remover on delete. The equality of index content and entity state after arbitrary histories needs execution and is not decided. Added later: the indexing context a store builds shares the operation's error holder (HOLDER); the pruning of an emptied set-index key is found by what it does (any package function that can reach DeleteBucket) and must be guarded by the emptiness probe at the call or inside. Added in rounds 8-9: the delete reaches every child store's constraints (ORCH); a missing path element yields nil, never the deepest existing ancestor (PATHNIL); AddConstraint appends what it is given on every path (CONSTRAINTREG); create-or-not is a constant of the entry point (CREATECTX). Added in round 11: index objects keep no state outside the transaction (TXSTATE); a failed index bucket is recorded or returned (INDEXBUCKETERR); the holder is consulted after the last index step in Create/Update/DeleteById (ERRREACH). Added in round 12: a walk over a set cursor is not ended by a nil element (SETWALK). Added in round 13: a cursor's IsValid compares its position with nil and the position is never the decoded value (VALIDNIL, VALIDSRC: the empty string is an element, not the end of the set the index is maintained from).",
 		LevelNote:   "Trusted: go/types, x/tools SSA, bbolt. Interface dispatch resolved by name-and-shape CHA over the repository.",
 		DesignRef:   "DESIGN.md C03",
 		Explanation: "Sites: BaseStore.Create/Update/processDeleteConstraints, IndexingContext.Process*, every Constraint implementer's ProcessBeforeUpdate/ProcessAfterUpdate/ProcessBeforeDelete.",
@@ -62,7 +62,7 @@ func init() {
 		ID:          "C04",
 		Title:       "Foreign keys: targets exist, back-references exact, delete restricts or cascades",
 		Technique:   "static analysis: taint rule (no run-time text flows into a filter parser from inside the library), wiring rule for the Add*Fk* registrations, existence-check dominance, old-back-reference-removed-on-every-changed-path rule, shape rule for the restrict/cascade delete loop (delete inside the live cursor loop with re-seek); raw-id rule for the cascade filter constant",
-		LevelText:   "Necessary conditions decided on every path: no filter text is assembled from data inside the library (ids with quotes, backslashes or keywords cannot change a query's meaning); every fk registration also registers the delete-side constraint on the target store; a back-reference is written only into an existing target (not-found otherwise) and fk constraints test the target's presence; on update the old back-reference is removed on every path where the reference changed; restrict refuses while a referrer exists; cascade deletes referrers from the live cursor (re-seeking after each delete), returning on the first error. Exact back-reference sets after histories are not decided. The constant of the cascade/restrict filter is the id parameter itself (nothing unquotes or unescapes it); every loop that deletes referrers re-seeks its cursor. Added later: the indexing context shares the operation's error holder (HOLDER); a loop that deletes through the store while a cursor over the same data is live re-seeks before it continues (RESEEK). Added in rounds 8-9: a refusal raised for a child store reaches the caller (LOOKEDAT); the referenced store is asked only about non-empty reference values (EMPTYREF); every constraint handed in is registered (CONSTRAINTREG); the referrer filter of the cascade is made per invocation (FRESHFILTER); the nested delete of the cascade is guarded against re-entering an entity already being deleted (CASCADECYCLE: KNOWN FINDING on the pinned tree, see known_findings.json). Added in round 10: a reference read through a symbol is not looked up in that symbol's own store (REFSTORE); a forward Seek does not move the bolt cursor again, cursor families with the direction in a flag field are decided under the constructor's constant (CURSORSEEK); the parent chain runs as the kind of operation the entry point says (CREATECTX). Added in round 11: the path of an entity symbol ends in its key (SYMPATH). Added in round 12: a tag-only payload decodes to a nil value (TAGONLYNIL); a filter built over a store's symbols is evaluated on that store (FILTERSTORE); a non-empty reference is accepted only after IsEntityPresent was asked in that call (ASKED).",
+		LevelText:   "Necessary conditions decided on every path: no filter text is assembled from data inside the library (ids with quotes, backslashes or keywords cannot change a query's meaning); every fk registration also registers the delete-side constraint on the target store; a back-reference is written only into an existing target (not-found otherwise) and fk constraints test the target's presence; on update the old back-reference is removed on every path where the reference changed; restrict refuses while a referrer exists; cascade deletes referrers from the live cursor (re-seeking after each delete), returning on the first error. Exact back-reference sets after histories are not decided. The constant of the cascade/restrict filter is the id parameter itself (nothing unquotes or unescapes it); every loop that deletes referrers re-seeks its cursor. Added later: the indexing context shares the operation's error holder (HOLDER); a loop that deletes through the store while a cursor over the same data is live re-seeks before it continues (RESEEK). Added in rounds 8-9: a refusal raised for a child store reaches the caller (LOOKEDAT); the referenced store is asked only about non-empty reference values (EMPTYREF); every constraint handed in is registered (CONSTRAINTREG); the referrer filter of the cascade is made per invocation (FRESHFILTER); the nested delete of the cascade is guarded against re-entering an entity already being deleted (CASCADECYCLE: KNOWN FINDING on the pinned tree, see known_findings.json). Added in round 10: a reference read through a symbol is not looked up in that symbol's own store (REFSTORE); a forward Seek does not move the bolt cursor again, cursor families with the direction in a flag field are decided under the constructor's constant (CURSORSEEK); the parent chain runs as the kind of operation the entry point says (CREATECTX). Added in round 11: the path of an entity symbol ends in its key (SYMPATH). Added in round 12: a tag-only payload decodes to a nil value (TAGONLYNIL); a filter built over a store's symbols is evaluated on that store (FILTERSTORE); a non-empty reference is accepted only after IsEntityPresent was asked in that call (ASKED). Added in round 13: PRESENCE as in C05 (a back-reference written in this transaction is found again); PROTOCOL as in C03 (no constraint of a level is skipped).",
 		LevelNote:   "Trusted: go/types, x/tools SSA, bbolt; evaluation of the AST filter used by the cascade is C01's domain.",
 		DesignRef:   "DESIGN.md C04",
 		Explanation: "Sites: every call of ast.Parse/QueryIds/DeleteWhere/zitiql.Parse made from library code; Indexer.Add*Fk*; fkIndex/fkConstraint/fkDeleteConstraint/fkDeleteCascadeConstraint Process* methods.",
@@ -107,7 +107,7 @@ func init() {
 		ID:          "C05",
 		Title:       "Link collections stay symmetric; ref-counted links agree on both sides",
 		Technique:   "static analysis: pairing rule (every local link write is followed on all success paths by the opposite-side write of the same polarity with swapped arguments), missing-entity error rule, count-agreement check rule, unconditional remote removal on entity delete, no-mutation-of-the-iterated-bucket rule, error-holder consultation; error discipline on the link functions (incl. tested-but-unused errors); must-write rule for the remote count; delete orchestration",
-		LevelText:   "Necessary conditions decided on every path: each function that writes the local side of a link also performs the remote operation of the same polarity with (id, key) swapped before reporting success; adding a link to a missing entity returns an error; increment/decrement compare both sides' new counts; deleting an entity removes the remote entry of every link unconditionally and both link kinds are cleaned up; no function deletes from a bucket while it is walking that bucket's cursor; recorded bucket errors are returned. Correctness of the SetLinks sorted merge on data is not decided. No link function loses a failure of either side (an error that is only tested for nil and then dropped is reported); the remote side of setLinkCount/incrementLinkCount writes on every successful path; link cleanup runs for every deleted entity, also through child stores. Added later: no answer of bbolt's Stats()/KeyN (committed pages, not the transaction's own writes) decides whether links exist (NOSTATS). Added in rounds 8-9: the value handed to bbolt Put is not a pooled or scratch buffer (PUTFRESH); no bucket inside an entity is looked up by a symbol's name instead of its path (NAMEPATH). Added in round 11: the entities bucket is keyed with an id only where the store's entityPath is then descended (ENTITYBUCKET); no write of any kind through the bucket whose cursor drives a loop (ITERATE). Added in round 13: no link collection method reaches for the parent store (LINKSTORE: both sides find an entity through the symbol's own store).",
+		LevelText:   "Necessary conditions decided on every path: each function that writes the local side of a link also performs the remote operation of the same polarity with (id, key) swapped before reporting success; adding a link to a missing entity returns an error; increment/decrement compare both sides' new counts; deleting an entity removes the remote entry of every link unconditionally and both link kinds are cleaned up; no function deletes from a bucket while it is walking that bucket's cursor; recorded bucket errors are returned. Correctness of the SetLinks sorted merge on data is not decided. No link function loses a failure of either side (an error that is only tested for nil and then dropped is reported); the remote side of setLinkCount/incrementLinkCount writes on every successful path; link cleanup runs for every deleted entity, also through child stores. Added later: no answer of bbolt's Stats()/KeyN (committed pages, not the transaction's own writes) decides whether links exist (NOSTATS). Added in rounds 8-9: the value handed to bbolt Put is not a pooled or scratch buffer (PUTFRESH); no bucket inside an entity is looked up by a symbol's name instead of its path (NAMEPATH). Added in round 11: the entities bucket is keyed with an id only where the store's entityPath is then descended (ENTITYBUCKET); no write of any kind through the bucket whose cursor drives a loop (ITERATE). Added in round 13: no link collection method reaches for the parent store (LINKSTORE: both sides find an entity through the symbol's own store). Added in round 13: no link collection method reaches for the parent store (LINKSTORE); the long-lived store, index, symbol and link objects hold nothing that belongs to a transaction (NOTXSTATE).",
 		LevelNote:   "Trusted: go/types, x/tools SSA, bbolt cursor semantics (deleting under a live cursor may skip entries).",
 		DesignRef:   "DESIGN.md C05",
 		Explanation: "Sites: all functions of link_collection.go and link_collection_rc.go, TypedBucket link-count methods, BaseStore.cleanupLinks.",
@@ -165,7 +165,7 @@ func init() {
 		ID:          "C06",
 		Title:       "A committed delete leaves no trace of the entity's id",
 		Technique:   "static analysis: must-pass orchestration of the delete path (parent delegation, child fan-out, constraints, link cleanup, entity bucket removal), writer⊆remover pairing per constraint type, stale-back-reference rule on updates, unconditional remote link removal, no-mutation-of-the-iterated-bucket rule",
-		LevelText:   "Decides that every place the id can have been written has a remover on the delete path and that the path is complete on every non-failing route: child stores delegate to the parent; the parent runs, for every child strategy, the child's delete constraints, then its own, then removes the entity bucket (child data lives below it); every index-writing constraint type has a delete-side remover; updates remove the old back-reference on every changed path (otherwise a later delete cannot find it); entity deletion removes the remote side of every link without deleting under the live cursor. That removers delete exactly the keys writers wrote on every history is not decided (the repository's ValidateDeleted oracle does that at run time). Added later: child strategies are appended, never replaced (CHILDREG); the error result of the delete-constraint step is looked at on every path before the entity bucket is removed (LOOKEDAT); no bbolt Stats() answer decides a cleanup (NOSTATS). Added in rounds 8-9: cross-listed RAWID, FRESHFILTER and WIRING (the delete rule of a foreign key lands on the referenced store and finds the referrers of exactly the id being deleted, also in nested deletes). Added in round 10: a forward Seek lands on the first remaining key (CURSORSEEK); the cascade loop is left only on an exhausted cursor or a recorded/returned failure (CASCADE). Added in round 11: the id scanner's Seek re-seeks (RESEEK); ENTITYBUCKET as in C05. Added in round 13: LINKSTORE as in C05.",
+		LevelText:   "Decides that every place the id can have been written has a remover on the delete path and that the path is complete on every non-failing route: child stores delegate to the parent; the parent runs, for every child strategy, the child's delete constraints, then its own, then removes the entity bucket (child data lives below it); every index-writing constraint type has a delete-side remover; updates remove the old back-reference on every changed path (otherwise a later delete cannot find it); entity deletion removes the remote side of every link without deleting under the live cursor. That removers delete exactly the keys writers wrote on every history is not decided (the repository's ValidateDeleted oracle does that at run time). Added later: child strategies are appended, never replaced (CHILDREG); the error result of the delete-constraint step is looked at on every path before the entity bucket is removed (LOOKEDAT); no bbolt Stats() answer decides a cleanup (NOSTATS). Added in rounds 8-9: cross-listed RAWID, FRESHFILTER and WIRING (the delete rule of a foreign key lands on the referenced store and finds the referrers of exactly the id being deleted, also in nested deletes). Added in round 10: a forward Seek lands on the first remaining key (CURSORSEEK); the cascade loop is left only on an exhausted cursor or a recorded/returned failure (CASCADE). Added in round 11: the id scanner's Seek re-seeks (RESEEK); ENTITYBUCKET as in C05. Added in round 13: LINKSTORE as in C05. Added in round 13: LINKSTORE and PRESENCE as in C05.",
 		LevelNote:   "Trusted: go/types, x/tools SSA, bbolt (DeleteBucket removes nested buckets).",
 		DesignRef:   "DESIGN.md C06",
 		Explanation: "Sites: BaseStore.DeleteById/processDeleteConstraints/cleanupLinks, NewBaseStore path construction, all Constraint implementers, link collections' EntityDeleted.",
